@@ -18,6 +18,8 @@ import (
 	sdkerrors "github.com/cosmos/cosmos-sdk/types/errors"
 	sdktx "github.com/cosmos/cosmos-sdk/types/tx"
 	authtypes "github.com/cosmos/cosmos-sdk/x/auth/types"
+	"github.com/cosmos/cosmos-sdk/x/auth/vesting"
+	vestingtypes "github.com/cosmos/cosmos-sdk/x/auth/vesting/types"
 	distrkeeper "github.com/cosmos/cosmos-sdk/x/distribution/keeper"
 	distrtypes "github.com/cosmos/cosmos-sdk/x/distribution/types"
 	govtypes "github.com/cosmos/cosmos-sdk/x/gov/types"
@@ -171,6 +173,8 @@ func classify(err error, basic bool) (string, int) {
 		return "tostaking", 7
 	case strings.Contains(m, "can not migrate"):
 		return "gov", 8
+	case errors.Is(err, sdkerrors.ErrInsufficientFunds):
+		return "funds", 10
 	case errors.Is(err, collections.ErrNotFound):
 		return "govmissing", 9
 	}
@@ -202,6 +206,19 @@ func (h *Hist) Exec(op Op) Op {
 		lib.Must(a.SetPubKey(h.keys[op.A].Priv.PubKey()))
 		c.App.AccountKeeper.SetAccount(c.Ctx, a)
 		h.cur, op.Res = nil, "ok"
+	case "vest":
+		// actor B opens a vesting account for actor A (which must not exist yet): Amt FX, ends Dt ns from now
+		end := c.Ctx.BlockTime().Add(time.Duration(op.Dt))
+		vs := vesting.NewMsgServerImpl(c.App.AccountKeeper, c.App.BankKeeper)
+		err := try(func(ctx sdk.Context) error {
+			_, e := vs.CreateVestingAccount(ctx, &vestingtypes.MsgCreateVestingAccount{FromAddress: h.acc(op.B).String(), ToAddress: h.acc(op.A).String(),
+				Amount: sdk.NewCoins(sdk.NewCoin("FX", amt(op.Amt))), EndTime: end.Unix(), Delayed: op.Mode == "delayed"})
+			return e
+		})
+		h.cur, op.Res = nil, res(err)
+		if err == nil {
+			h.tags["vesting-source"] = true
+		}
 	case "mint":
 		c.Mint(h.acc(op.A), sdk.NewCoin(op.Denom, amt(op.Amt)))
 		h.cur, op.Res = nil, "ok"
@@ -352,6 +369,9 @@ func (h *Hist) Exec(op Op) Op {
 			h.cw.Add(pre, fmt.Sprintf("CMigrateSrv %s %s", z(h.id(op.A)), z(h.id(op.B))), obs, post, h.cfg)
 		}
 		h.rep.Count("migrate:" + op.Mode + ":" + strings.SplitN(cls, ":", 2)[0])
+		if cls == "funds" {
+			h.tags["refused-locked"] = true
+		}
 		if err == nil && op.A != op.B {
 			h.moved[op.A] = op.B
 			h.tags["migrated"] = true
